@@ -29,7 +29,7 @@ def make_case(seed_tuple, eidx, tier, stratum=None):
     E = _entries()[eidx]
     X, y, y_true, classes, labeling = R.gen_data(rng, E.task, binary=E.binary,
                                                  cold=None if stratum is None else LABELINGS[stratum % 5])
-    mode, cand = R.gen_candidates(rng, E, X, y)
+    mode, cand = R.gen_candidates(rng, E, X, y, mode_idx=None if stratum is None else (stratum // 5 + stratum // 25))
     ncand = {"none": int(np.sum(np.isnan(y))), "feat": None}.get(mode, None)
     if mode in ("idx_unl", "idx_any"):
         ncand = len(np.unique(cand))
